@@ -329,11 +329,26 @@ BLOCKING_EXCEPTIONS = {
         'write-ahead thread is joined (required by C08); the joined thread takes only '
         'Storage.meta_store, never the ingestion lock',
     (WAL, 'block_on', 'scheduler::inner_locustdb::InnerLocustDB::ingest_efficient'):
-        'lazy load of the column catalogue while ingesting; the query task run by the workers '
-        'never takes the ingestion lock',
+        'lazy load of the column catalogue while ingesting, executed on the ingesting thread: a cold '
+        'catalogue column may be read through a remote blob backend (Azure / GCS) whose client calls '
+        'are driven with RT.block_on - blocking I/O on the storage runtime, which takes no database lock',
     ('InnerLocustDB.tables', 'block_on', 'scheduler::inner_locustdb::InnerLocustDB::new'):
-        'start-up replay: read guard on the table map while querying the catalogue; writers of '
-        'the table map do not exist yet (ingestion starts after new returns)',
+        'start-up replay: the same blocking read of a cold catalogue column through a remote backend; '
+        'writers of the table map do not exist yet',
+    (WAL, 'semaphore', 'scheduler::inner_locustdb::InnerLocustDB::ingest_efficient'):
+        'lazy load of the column catalogue while ingesting, executed on the ingesting thread: the '
+        'catalogue query may read a cold column and takes a read-concurrency token; token holders '
+        'never take the ingestion lock',
+    (WAL, 'condvar wait', 'scheduler::inner_locustdb::InnerLocustDB::ingest_efficient'):
+        'same catalogue query: the wait on background_load_wait_queue is entered only while a '
+        'background sequential load is in progress, which no code starts (service_reads has no '
+        'caller, see the CND-1 census)',
+    ('InnerLocustDB.tables', 'semaphore', 'scheduler::inner_locustdb::InnerLocustDB::new'):
+        'start-up replay: read guard on the table map while the catalogue query reads a cold column; '
+        'writers of the table map do not exist yet (ingestion starts after new returns)',
+    ('InnerLocustDB.tables', 'condvar wait', 'scheduler::inner_locustdb::InnerLocustDB::new'):
+        'start-up replay, same query: the background-load wait is never entered (no code starts a '
+        'background sequential load)',
 }
 
 
@@ -992,3 +1007,77 @@ def _reads_field(ctx, F, du, org, fname):
                     except Exception:
                         pass
     return False
+
+
+# ------------------------------------------------------------------------------------ LCK-11
+def lck11_worker_never_waits_for_its_own_pool(ctx):
+    """The worker pool has a fixed number of threads.  A task that, while it runs on a worker, schedules
+    another task on the same pool and blocks until that task has answered needs a second free worker;
+    with one worker thread - or with every worker in that position, which the ingestion lock makes easy:
+    one holds it and waits for the pool, the others wait for the lock - nothing ever runs again."""
+    ctx.rule('LCK-11', 'no code that runs on a worker thread schedules a task on the worker pool and blocks on '
+                       'its answer', floor=2)
+    P = ctx.P
+    sched = [b for b in P.find('InnerLocustDB::schedule') if b.kind == 'fn' and '{closure' not in b.name]
+    ctx.require(sched, 'LCK-11: InnerLocustDB::schedule not found')
+    sched_names = {b.name for b in sched}
+    BLOCK = re.compile(r'(futures::executor::block_on|futures_executor::[\w:]*block_on|mpsc::Receiver::recv|'
+                       r'mpsc::Receiver::<[^>]*>::recv|Receiver::recv_timeout|Runtime::block_on)$')
+    waiting = {}
+    for b in P.fn_bodies():
+        if b.crate != 'locustdb':
+            continue
+        if b._lines is not None and not any(('block_on' in l or '::recv' in l) for l in b._lines):
+            continue
+        b.parse()
+        blk_sites = [t for (blk, t) in b.calls() if not blk.cleanup and BLOCK.search(strip_generic_args(norm_callee(t.func or '')))]
+        if not blk_sites:
+            continue
+        reach = P.reachable_bodies([b])
+        if sched_names & set(reach):
+            waiting[b.name] = blk_sites[0]
+    # bodies that run on a worker thread
+    roots = []
+    for b in P.fn_bodies():
+        if b.crate != 'locustdb':
+            continue
+        if re.search(r' as (scheduler::task::)?Task>::execute$', b.name) or b.name.endswith('Task>::execute'):
+            roots.append(b)
+    for b in P.fn_bodies():
+        if b.crate != 'locustdb':
+            continue
+        if b._lines is not None and not any('from_fn' in l or 'FnTask' in l for l in b._lines):
+            continue
+        b.parse()
+        for (blk, t) in b.calls():
+            if blk.cleanup or not t.func:
+                continue
+            if re.search(r'Task>?::from_fn|FnTask::<[^>]*>::new|FnTask::new', t.func):
+                roots += list(P.closures_in_text(t.func))
+    ctx.require(len(roots) >= 2, 'LCK-11: fewer than 2 bodies that run on a worker thread (%d)' % len(roots))
+    seen = set()
+    for r in sorted(roots, key=lambda x: x.name):
+        if r.name in seen:
+            continue
+        seen.add(r.name)
+        reach = P.reachable_bodies([r])
+        bad = sorted(set(reach) & set(waiting))
+        short = re.sub(r'^.*?(\w+(?:<[^>]*>)?(?: as [\w:]+)?>?::\w+(?:::\{closure#\d+\})*)$', r'\1', r.name)
+        if not bad:
+            ctx.ok('LCK-11', '%s|does-not-wait-for-the-pool' % short,
+                   'runs on a worker thread; reaches no function that schedules a task on the pool and blocks on it',
+                   where(r.blocks[0].term) if r.blocks else None)
+        for w in bad:
+            # the path for the report
+            path = [w]
+            cur = reach.get(w)
+            while cur is not None and len(path) < 12:
+                path.append(cur)
+                cur = reach.get(cur)
+            ctx.violation('LCK-11', '%s|waits-for-pool|%s' % (short, re.sub(r'^.*?(\w+::\w+)$', r'\1', w)),
+                          'runs on a worker thread and reaches %s, which schedules a task on the same pool and blocks '
+                          'until it answers (path: %s): with one worker, or with every worker queued behind the '
+                          'ingestion lock, nothing runs any more' %
+                          (re.sub(r'^.*?(\w+::\w+)$', r'\1', w), ' <- '.join(re.sub(r'^.*?(\w+::\w+)$', r'\1', p) for p in path)),
+                          where(waiting[w]))
+    ctx.note('LCK-11: %d worker-run bodies; functions that schedule on the pool and block: %s' % (len(seen), sorted(waiting)))
